@@ -131,7 +131,7 @@ def c05(c):
     splan(c)
     c.mc(toy_cfgs(["scalar"], c.tier, quick=[13, 17, 29, 41]))
     for b in ("ark", "min"):
-        c.trace(b, "mulforms", scale(c.tier, 6, 1))
+        c.trace(b, "mulforms", 1)            # every form x every scalar of the alphabets
         c.trace(b, "order", scale(c.tier, 1, 20))
         c.trace(b, "progmul", scale(c.tier, 40, 800), 12)
         c.trace(b, "msm", scale(c.tier, 10, 200))
@@ -334,6 +334,14 @@ def c14(c):
     build("ark")
     c.mc(gadget_cfgs(c.tier))
     c.trace("ark", "hints", scale(c.tier, 12, 500), **RT)
+    # an invalid encoding must not survive ANY way of using the variable as an element: accessor / comparison
+    # sequences on a variable allocated from an invalid encoding (and from valid ones), as lazy-variable traces
+    qplan = os.path.join(WORK, "plan_lazy_q_%d.txt" % os.getpid())
+    seqs = ["Q", "QQ", "QC", "CQ", "EQ", "VQ", "QV", "V", "VC", "CV", "E", "C", "CQC", "QCQ"]
+    open(qplan, "w").write("\n".join(seqs) + "\n")
+    c.trace("ark", "lazy", 0, qplan, kinds=["lazy_new", "lazy_op", "lazy_end"], **RT)
+    c.exhaustive_parts.append("variables allocated from valid / identity / invalid / random encodings driven through %d accessor and "
+                              "equality-enforcing call sequences: satisfied iff the encoding is valid or was never used as an element" % len(seqs))
     return c.finish(rule="distinct (gadget, input class, substituted hint) combinations; toy part: every input x every "
                          "(flag, y) in BOOLEAN x F_p on toy curves")
 
